@@ -248,6 +248,9 @@ def run(ctx):
                              "global_variables": sum(1 for f in {r["field"] for r in table["rows"]} if f.startswith("global:")),
                              "pointer_aliases_followed": table.get("pointer_aliases") or [],
                              "interface_call_edges_added": table.get("interface_call_edges", 0)}
+    if lockfacts.get("unjustified_rows") or lockfacts.get("lowered_entries"):
+        broken.append({"kind": "obligation", "name": "locksets of the access table not re-derived by the verified analysis of the skeletons",
+                       "detail": "unjustified rows: %s; entry locksets lowered by the fixpoint: %s" % (lockfacts.get("unjustified_sites"), lockfacts.get("lowered_entries"))})
     rows_with_real_locks = sum(1 for r in table["rows"] if [l for l in (r["locks"] or []) if ":" not in l.split(":R")[0]])
     ctx.coverage["lockset_analysis"] = dict(lockfacts, rows_with_real_locks=rows_with_real_locks,
                                             note="rows outside unjustified_sites: locksets re-derived by the verified analysis of the regenerated skeletons (repo_locks_held)")
